@@ -24,6 +24,11 @@ Inductive obj : Type :=
 | Arr (dims : list nat) (xs : list obj) (et : obj) (adj : bool) (* *slip.Array, row-major elements *)
 | Hash (kvs : list (obj * obj))     (* slip.HashTable as an association list *)
 | Lam (ll : list obj) (doc : string) (body : list obj)          (* *slip.Lambda as its code tree *)
+| Inst (flavor : string) (slots : list (string * obj))          (* *flavors.Instance: every instance variable (own and
+                                                                    inherited, without self) sorted by name, with its value *)
+| Flv (name : string) (ivars : list (string * obj)) (init get set : bool) (doc : string)
+                                    (* *flavors.Flavor without components: instance variables sorted by name with
+                                       their evaluated defaults (nil: none), the three blanket options, documentation *)
 | Opaque (what : string).           (* anything that offers no load form (streams, ...) *)
 
 (* error outcomes are explicit; EUnmodelled marks forms outside the modelled fragment of the evaluator *)
@@ -119,6 +124,12 @@ Fixpoint load_form (v : obj) : res obj :=
   | Hash kvs =>
       Ok (L ([Sym "let"; L [L [Sym "table"; L [Sym "make-hash-table"]]]] ++ flat_map hash_entry_form kvs ++ [Sym "table"]))
   | Lam ll doc body => Ok (L ([Sym "lambda"; mkL ll] ++ (if (doc =? "")%string then [] else [Str doc]) ++ body))
+  | Inst f slots =>
+      (* instance.go:56 InstanceLoadForm: the values of the instance variables are put into the form as they are *)
+      Ok (L ([Sym "let"; L [L [Sym "inst"; L [Sym "make-instance"; quote (Sym f)]]]]
+             ++ map (fun kv => L [Sym "setf"; L [Sym "slot-value"; Sym "inst"; quote (Sym (fst kv))]; snd kv]) slots
+             ++ [Sym "inst"]))
+  | Flv _ _ _ _ _ _ => Err EUnmodelled        (* Flavor.LoadForm is modelled by Session.flavor_form *)
   | Opaque _ => Err ENotReadable
   end.
 
@@ -287,14 +298,67 @@ Fixpoint obj_eqb (a b : obj) : bool :=
       (if list_eq_dec Nat.eq_dec d1 d2 then true else false) && all2 x y && obj_eqb e1 e2 && Bool.eqb a1 a2
   | Hash x, Hash y => all2p x y
   | Lam l1 d1 b1, Lam l2 d2 b2 => all2 l1 l2 && (d1 =? d2)%string && all2 b1 b2
+  | Inst f1 s1, Inst f2 s2 =>
+      (f1 =? f2)%string &&
+      (fix alls (l1 l2 : list (string * obj)) : bool :=
+         match l1, l2 with
+         | [], [] => true
+         | (k1, v1) :: r1, (k2, v2) :: r2 => (k1 =? k2)%string && obj_eqb v1 v2 && alls r1 r2
+         | _, _ => false
+         end) s1 s2
+  | Flv n1 i1 a1 b1 c1 d1, Flv n2 i2 a2 b2 c2 d2 =>
+      (n1 =? n2)%string && Bool.eqb a1 a2 && Bool.eqb b1 b2 && Bool.eqb c1 c2 && (d1 =? d2)%string &&
+      (fix alls (l1 l2 : list (string * obj)) : bool :=
+         match l1, l2 with
+         | [], [] => true
+         | (k1, v1) :: r1, (k2, v2) :: r2 => (k1 =? k2)%string && obj_eqb v1 v2 && alls r1 r2
+         | _, _ => false
+         end) i1 i2
   | _, _ => false
+  end.
+
+(* instances: make-instance with init keywords (only when the flavor is inittable), setting an instance variable *)
+Fixpoint slot_set (slots : list (string * obj)) (k : string) (v : obj) : option (list (string * obj)) :=
+  match slots with
+  | [] => None
+  | (k', v') :: r => if (k' =? k)%string then Some ((k, v) :: r)
+                     else match slot_set r k v with Some r' => Some ((k', v') :: r') | None => None end
+  end.
+Definition keyword_name (s : string) : option string := match s with String ":"%char r => Some r | _ => None end.
+Fixpoint apply_inits (slots : list (string * obj)) (inits : list obj) : res (list (string * obj)) :=
+  match inits with
+  | [] => Ok slots
+  | Sym k :: v :: r =>
+      match keyword_name k with
+      | Some n => match slot_set slots n v with Some s' => apply_inits s' r | None => Err EType end
+      | None => Err EType
+      end
+  | _ => Err EBadForm
+  end.
+Definition make_instance (e : env) (vals : list obj) : res obj :=
+  match vals with
+  | Sym f :: inits =>
+      match lookup e f with
+      | Some (Flv _ ivars init _ _ _) =>
+          match inits with
+          | [] => Ok (Inst f ivars)
+          | _ => if init then bind (apply_inits ivars inits) (fun s => Ok (Inst f s)) else Err EType
+          end
+      | _ => Err EType          (* class not found *)
+      end
+  | _ => Err EBadForm
+  end.
+Definition find_flavor (e : env) (vals : list obj) : res obj :=
+  match vals with
+  | [Str n] => match lookup e n with Some (Flv a b c d x y) => Ok (Flv a b c d x y) | _ => Ok Nil end
+  | _ => Err EUnmodelled
   end.
 
 (* eval: structural recursion on the form; arguments are evaluated left to right *)
 Fixpoint eval (e : env) (f : obj) : res obj :=
   match f with
   | Nil | T | Fix _ | Big _ | Atom _ _ | Str _ => Ok f
-  | Vec _ _ _ | Arr _ _ _ _ | Hash _ | Lam _ _ _ | Opaque _ => Ok f      (* their Eval returns the receiver *)
+  | Vec _ _ _ | Arr _ _ _ _ | Hash _ | Lam _ _ _ | Inst _ _ | Flv _ _ _ _ _ _ | Opaque _ => Ok f   (* their Eval returns the receiver *)
   | Sym s => if is_keyword s then Ok f
              else match lookup e s with Some v => Ok v | None => Err (EUnbound s) end
   | Dot _ _ => Err EUnmodelled
@@ -320,8 +384,45 @@ Fixpoint eval (e : env) (f : obj) : res obj :=
                    else Err EUnmodelled
                | _ => Err EUnmodelled
                end) [] body
+        (* ... and the shape the snapshot writes for a flavor instance (snapshot.go ppInstance, instance.go
+           InstanceLoadForm): (let ((inst (make-instance 'f))) (setf (slot-value inst 'v) VALUE) ... inst) *)
+        | L [L [Sym iv; (L (Sym mi :: _ :: _)) as mk]] :: body =>
+            if negb (mi =? "make-instance")%string then Err EUnmodelled else
+            bind (eval e mk) (fun o =>
+              match o with
+              | Inst fl slots0 =>
+                  (fix go (slots : list (string * obj)) (l : list obj) : res obj :=
+                     match l with
+                     | [] => Ok Nil
+                     | [Sym r] => if (r =? iv)%string then Ok (Inst fl slots) else Err EUnmodelled
+                     | L [Sym sf; L [Sym sv; Sym iv'; L [Sym q; Sym k]]; vf] :: rest =>
+                         if (sf =? "setf")%string && (sv =? "slot-value")%string && (iv' =? iv)%string && (q =? "quote")%string then
+                           bind (eval ((iv, Inst fl slots) :: e) vf) (fun v =>
+                             match slot_set slots k v with
+                             | Some s' => go s' rest
+                             | None => Err EType
+                             end)
+                         else Err EUnmodelled
+                     | _ => Err EUnmodelled
+                     end) slots0 body
+              | _ => Err EType
+              end)
         | _ => Err EUnmodelled
         end
+      else if (h =? "make-instance")%string then
+        bind ((fix evs (l : list obj) : res (list obj) :=
+                 match l with
+                 | [] => Ok []
+                 | a :: r => bind (eval e a) (fun v => bind (evs r) (fun vs => Ok (v :: vs)))
+                 end) args)
+             (make_instance e)
+      else if (h =? "find-flavor")%string then
+        bind ((fix evs (l : list obj) : res (list obj) :=
+                 match l with
+                 | [] => Ok []
+                 | a :: r => bind (eval e a) (fun v => bind (evs r) (fun vs => Ok (v :: vs)))
+                 end) args)
+             (find_flavor e)
       else
         bind ((fix evs (l : list obj) : res (list obj) :=
                  match l with
